@@ -2,7 +2,7 @@ from specs.common import run, ASSUME_COMMON
 
 SPEC = {
     "runs": [
-        run("e3-serial", "c11_lockfree", "asan", 20000, 2000000, sq=8, st=16, need_lib=False,
+        run("e3-serial", "c11_lockfree", "asan", 20000, 1200000, sq=8, st=16, need_lib=False,
             tier_params={"thorough": {"enum_every": 100000}},
             timeout={"quick": 1500, "thorough": 10800}),
         run("e2-free", "c11_lockfree", "tsan", 200, 20000, sq=4, st=16, need_lib=True,
@@ -15,8 +15,8 @@ SPEC = {
                   "lock_try_lock_failures": 100,
                   "enum_configs_exhausted": 8, "enum_runs": 3000,
                   "enum_lock_configs_exhausted": 6, "enum_lock_runs": 1500},
-        "thorough": {"queue_schedules": 1000000, "lock_schedules": 250000, "schedules_with_genuine_cas_failure": 50000,
-                     "schedules_with_injected_cas_failure": 100000, "legitimate_false_adds": 100000,
+        "thorough": {"queue_schedules": 700000, "lock_schedules": 180000, "schedules_with_genuine_cas_failure": 40000,
+                     "schedules_with_injected_cas_failure": 80000, "legitimate_false_adds": 80000,
                      "queue_free_histories": 10000, "lock_free_histories": 3000,
                      "enum_configs_exhausted": 6, "enum_runs": 50000,
                      "enum_lock_configs_exhausted": 6, "enum_lock_runs": 30000},
@@ -24,7 +24,7 @@ SPEC = {
     "engine": "E3 serialised schedule",
     "engines_used": ["E3 serialised schedule", "E2 history"],
     "technique": "seeded serialised schedules (baton scheduler at every atomic operation, spurious weak-CAS failures) over the unmodified lock-free headers with per-step invariants and a history check; plus free-running real threads under TSan with the perturbation shim",
-    "level_text": ("exploration: tens of thousands (quick) to millions (thorough) of seeded schedules of 1..3 producers and one "
+    "level_text": ("exploration: tens of thousands (quick) to over a million (thorough) of seeded schedules of 1..3 producers and one "
                    "consumer on CircularBuffer capacities 1..3, and of 2..3 threads on SpinLockMutex, executed on the real "
                    "headers with every atomic operation a scheduling point (uniform random and PCT-style priority schedules, "
                    "spurious compare_exchange_weak failures at rate 0, 1/8, 1/2). Each schedule is decided by step invariants "
